@@ -97,6 +97,8 @@ class Check(object):
     trusted = ()
     rule = ''
     checker_cmd = 'cd lean && lake build && lake env lean <#print axioms file>'
+    # opt-in: report a correspondence break even when (only) known findings were seen in the same run
+    strict_correspondence = False
 
     def explore(self, tier, seed):
         raise NotImplementedError
@@ -157,10 +159,13 @@ class Check(object):
         obligations.append(('monitor:implementation-traces', not monitor_fail))
 
         searched = False
-        if (corr_fail or broken_build) and not monitor_fail:
+        quiet = not monitor_fail
+        if self.strict_correspondence:
+            quiet = all(self.classify(f, known) is not None for f in monitor_fail)
+        if (corr_fail or broken_build) and quiet:
             searched = True
             try:
-                monitor_fail = self.search(tier, seed, corr_fail)
+                monitor_fail = monitor_fail + self.search(tier, seed, corr_fail)
             except common.MachineryError as e:
                 print('MACHINERY-ERROR property=%s %s' % (prop, e))
                 return 2
@@ -183,7 +188,7 @@ class Check(object):
                                                           'case': f.case, 'details': f.details, 'seed': seed})
             lines.append('VIOLATION property=%s replay=%s' % (prop, path))
             violations = len(unlisted)
-        elif (corr_fail or broken_build) and not seen_known:
+        elif (corr_fail or broken_build) and (self.strict_correspondence or not seen_known):
             # the property is no longer shown to hold, but no failing input was found
             payload = {'property': prop, 'seed': seed, 'searched': searched}
             if broken_build:
